@@ -40,31 +40,35 @@ static int is_dup(char const *line)
         if (!seen[i]) { seen[i] = h; return 0; }
     }
 }
-static void put_m(FILE *f, char const *name, double const *v, int n)
+static void put_m(FILE *f, char const *name, a_real const *v, int n)
 {
+    double d[32];
+    for (int i = 0; i < n; ++i) { d[i] = (double)v[i]; }
     fprintf(f, ",\"%s\":", name);
-    put_dyadics(f, v, n);
+    put_dyadics(f, d, n);
 }
 
 /* the same matrix scaled by 2^s (exact): the factorization must still succeed and the log-determinant must move by
    exactly n*s*ln 2, also where the determinant itself is far outside the floating-point range */
-static void put_scaled(FILE *f, int kind, int n, double const *A)
+static void put_scaled(FILE *f, int kind, int n, a_real const *A)
 {
-    static int const sh[] = {400, -400};
-    double B[25];
+    /* beyond the range of the next narrower type as well: 2^60 (float), 2^400 (double), 2^4000 (long double) */
+    int const S = sizeof(a_real) == 4 ? 60 : sizeof(a_real) == 8 ? 400 : 4000;
+    int const sh[] = {S, -S};
+    a_real B[25];
     a_uint p[5];
     int sign;
     fputs(",\"scaled\":[", f);
     for (int k = 0; k < 2; ++k)
     {
         int rc;
-        double ln = 0;
-        for (int i = 0; i < n * n; ++i) { B[i] = ldexp(A[i], sh[k]); }
+        long double ln = 0;
+        for (int i = 0; i < n * n; ++i) { B[i] = (a_real)ldexpl((long double)A[i], sh[k]); }
         if (kind <= 2) { rc = a_real_plu((a_uint)n, B, p, &sign); if (rc == 0) { ln = a_real_plu_lndet((a_uint)n, B); } }
         else if (kind <= 4) { rc = a_real_ldl((a_uint)n, B); if (rc == 0) { ln = a_real_ldl_lndet((a_uint)n, B); } }
         else { rc = a_real_llt((a_uint)n, B); if (rc == 0) { ln = a_real_llt_lndet((a_uint)n, B); } }
         fprintf(f, "%s{\"rc\":%d,\"l2\":", k ? "," : "", rc);
-        put_value(f, ln / 0.69314718055994530942 - (double)n * sh[k]);
+        put_value(f, (double)(ln / 0.69314718055994530942L - (long double)n * sh[k]));
         fputc('}', f);
     }
     fputc(']', f);
@@ -84,6 +88,8 @@ int main(int argc, char **argv)
         fo[i] = fopen(name, "w");
         if (!fo[i]) { perror(name); return 3; }
     }
+    long const stride = argc > 4 ? atol(argv[4]) : 1; /* take every stride-th case (used for the additional real widths) */
+    long n_seen = 0;
     static char line[1 << 14];
     long v[256];
     long by_kind[8] = {0};
@@ -91,17 +97,18 @@ int main(int argc, char **argv)
     {
         if (!strstr(line, "2020202")) { continue; }
         if (is_dup(line)) { ++n_dups; continue; }
+        if (stride > 1 && (n_seen++ % stride)) { continue; }
         int cnt = parse_ints(line, v, 256);
         int kind = (int)v[1], n = (int)v[2], aux = (int)v[3], nn = n * n;
         if (cnt != 4 + 2 * nn || n > 5) { fprintf(stderr, "bad line\n"); return 3; }
-        double A[25], W[25], L[25], U[25], P[25], P2[25], I1[25], I2[25], b[5], x[5], tmp[5], d[5];
-        for (int i = 0; i < nn; ++i) { A[i] = (double)v[4 + 2 * i] / (double)v[5 + 2 * i]; }
-        for (int i = 0; i < n; ++i) { b[i] = (double)(i % 2 ? -2 * (i + 1) : (i + 1)); }
-        memcpy(W, A, sizeof(double) * (size_t)nn);
+        a_real A[25], W[25], L[25], U[25], P[25], P2[25], I1[25], I2[25], b[5], x[5], tmp[5], d[5];
+        for (int i = 0; i < nn; ++i) { A[i] = (a_real)v[4 + 2 * i] / (a_real)v[5 + 2 * i]; }
+        for (int i = 0; i < n; ++i) { b[i] = (a_real)(i % 2 ? -2 * (i + 1) : (i + 1)); }
+        memcpy(W, A, sizeof(a_real) * (size_t)nn);
         by_kind[kind]++;
         FILE *f = out();
         fprintf(f, "{\"kind\":%d,\"n\":%d,\"aux\":%d,\"A\":", kind, n, aux);
-        put_dyadics(f, A, nn);
+        { double dA[25]; for (int i = 0; i < nn; ++i) { dA[i] = (double)A[i]; } put_dyadics(f, dA, nn); }
         put_m(f, "b", b, n);
         if (kind <= 2)
         {
@@ -146,7 +153,7 @@ int main(int argc, char **argv)
             {
                 a_real_ldl_L((a_uint)n, W, L);
                 a_real_ldl_D((a_uint)n, W, d);
-                memcpy(x, b, sizeof(double) * (size_t)n);
+                memcpy(x, b, sizeof(a_real) * (size_t)n);
                 a_real_ldl_solve((a_uint)n, W, x);
                 a_real_ldl_inv((a_uint)n, W, tmp, I1);
                 a_real_ldl_inv_((a_uint)n, W, I2);
@@ -170,7 +177,7 @@ int main(int argc, char **argv)
             if (rc == 0)
             {
                 a_real_llt_L((a_uint)n, W, L);
-                memcpy(x, b, sizeof(double) * (size_t)n);
+                memcpy(x, b, sizeof(a_real) * (size_t)n);
                 a_real_llt_solve((a_uint)n, W, x);
                 a_real_llt_inv((a_uint)n, W, tmp, I1);
                 a_real_llt_inv_((a_uint)n, W, I2);
